@@ -3,6 +3,7 @@ own table is consulted only to learn whether it claims a name the registries do 
 (such names are accepted unjudged; their values are C17's business)."""
 import json
 import os
+import re
 
 from .. import VERIF_DIR
 
@@ -57,6 +58,9 @@ MACH = {'ARM': {40}, 'AARCH64': {183}, 'X86_64': {62}, 'AMD64': {62}, 'MIPS': {8
         'AVR': {83}, 'XTENSA': {94}, 'SH': {42}, 'M68K': {4}, 'LOONGARCH': {258}}
 
 
+RANGE_MARK = re.compile(r'_(LO|HI)(OS|PROC|USER|SUNW|RESERVE)$|RNG(LO|HI)$|^DT_ENCODING$')
+
+
 def applicable(name, prefix, machine):
     """Is registry name `name` (prefix + ...) in the table that applies to this machine?
     Only section, segment and dynamic-tag codes have machine-specific ranges; names of the OS
@@ -77,6 +81,14 @@ def elf_name_ok(prefix, num, observed, libtables, machine):
     """prefix with trailing underscore ('SHT_'); libtables: iterable of the library's name->value
     dicts for this kind (all machines)."""
     regnames = {n for n in registry_names(prefix[:-1], num) if applicable(n, prefix, machine)}
+    # the limit of a reserved range is not the name of a code the registries also name on its own
+    # (DT_FILTER / DT_HIPROC, DT_PREINIT_ARRAY / DT_ENCODING, SHT_GNU_versym / SHT_HIOS)
+    # - only where the proper name is a generic gABI one: what a code of the OS or processor range means depends on
+    # the OS ABI, so the library may report PT_LOOS for PT_HP_TLS or STT_LOOS for STT_GNU_IFUNC
+    vendors = set(MACH) | {'SUNW', 'GNU', 'ANDROID', 'HP', 'IA', 'VERSYM', 'VERDEF', 'VERNEED'}
+    proper = {n for n in regnames if not RANGE_MARK.search(n) and n.split('_')[1] not in vendors}
+    if proper and prefix == 'DT_':
+        regnames = proper
     if isinstance(observed, str):
         if observed in regnames:
             return True
